@@ -1435,6 +1435,12 @@ class Interp:
                 self.raise_("KeyError", "symbolic key")
             k = self.hashable(idx)
             if k not in v:
+                # keys that are symbolic values compare with the interpreted ==, not by object identity
+                if hasattr(idx, "sym_eq") or (isinstance(idx, tuple) and any(hasattr(x, "sym_eq") or isinstance(x, SV) for x in idx)):
+                    for kk in list(v.keys()):
+                        t = self.eq(kk, idx)
+                        if t is True or (not isinstance(t, bool) and self.branch(self._wrapb(t), "dictkey")):
+                            return v[kk]
                 self.raise_("KeyError", k)
             return v[k]
         if isinstance(v, (list, tuple, str, bytes, range)):
